@@ -122,7 +122,7 @@ PROPS = {
                            "tbl_dormant_doors_task", "tbl_dormant_doors_wf", "tbl_active_doors_wf",
                            "tbl_cancel_request_never_fails", "tbl_canceling_reports_never_fail",
                            "C10_cancel_request_never_fails", "C10_reports_keep_canceling"],
-                  NEXT: ["C10_no_offer_after_cancel"], FRAME: ["C09_request_touches_only_statuses"]},
+                  NEXT: ["C10_no_offer_after_cancel"], FRAME: ["C09_request_touches_only_statuses", "C10_history_no_offer_after_cancel"]},
         keys=["status", "staged", "sequence", "errors", "output"], offers="ids",
         prof=dict(p_template=0.45, templates=[1, 1, 1, 0, 0, 2, 4, 6], p_join=0.8), hist=dict(p_cancel=0.3, p_pause=0.08, p_fail=0.35, p_first_pending=0.25, p_task_pause=0.15), monitor="C10", unproven=[],
     ),
